@@ -20,3 +20,8 @@ func VerifSetRunOnce(fn VerifRunOnceFn) {
 		runTracerouteOnceFn = fn
 	}
 }
+
+// VerifPerformTCPFallback exposes the method selector to the policy check.
+func VerifPerformTCPFallback(m TCPMethod, doSyn, doSack, doSynSocket func() (*result.TracerouteRun, error)) (*result.TracerouteRun, error) {
+	return performTCPFallback(m, doSyn, doSack, doSynSocket)
+}
